@@ -6,6 +6,7 @@ import Parsley.Spec.Peg
 
   case   : `<tag> <expr> <hexbuf> <pos>`   or, several steps on ONE parser object (reuse):
            `<tag> <expr> <hexbuf> <pos> <hexbuf> <pos> …`  (outputs of the steps joined by ` ; `)
+           hexbuf: `<hex>` | `-` | segments joined by `+`, a segment `<hex>` or `<n>*<hex>` (long runs)
            expr (prefix, no blanks):  `.`XY seq   `|`XY alt   `*`X star   `!`X not
                                        `U` any-ascii   `=hh` byte == hh   `~hh` byte != hh   `[llhh` ll <= byte <= hh
                                        `^`G  raw operand with guard G (consumes the byte even when the guard rejects it)
@@ -72,6 +73,24 @@ def readE (w : String) : Option E :=
   | some (e, []) => some e
   | _ => none
 
+/-- buffer word: `<hex>` | `-` | segments joined by `+`, a segment being `<hex>` or `<n>*<hex>`
+    (the hex string repeated n times) - long runs without long case lines -/
+def segBytes (w : String) : Option Bytes :=
+  match w.splitOn "*" with
+  | [h] => bytesOfHex h
+  | [n, h] =>
+    match n.toNat?, bytesOfHex h with
+    | some k, some b => some (List.replicate k b).flatten
+    | _, _ => none
+  | _ => none
+
+def bytesOfDesc (w : String) : Option Bytes :=
+  if w == "-" then some [] else
+  (w.splitOn "+").foldr (fun seg acc =>
+    match segBytes seg, acc with
+    | some b, some a => some (b ++ a)
+    | _, _ => none) (some [])
+
 structure Case where
   e : E
   s : Bytes
@@ -80,7 +99,7 @@ structure Case where
 def readCase (line : String) : Option Case :=
   match words line with
   | [_, ex, hex, pos] =>
-    match readE ex, bytesOfHex hex, pos.toNat? with
+    match readE ex, bytesOfDesc hex, pos.toNat? with
     | some e, some s, some i => if i ≤ s.length then some ⟨e, s, i⟩ else none
     | _, _, _ => none
   | _ => none
@@ -89,7 +108,7 @@ def readCase (line : String) : Option Case :=
 def readSteps : List String → Option (List (Bytes × Nat))
   | [] => some []
   | hex :: pos :: rest =>
-    match bytesOfHex hex, pos.toNat?, readSteps rest with
+    match bytesOfDesc hex, pos.toNat?, readSteps rest with
     | some s, some i, some l => if i ≤ s.length then some ((s, i) :: l) else none
     | _, _, _ => none
   | [_] => none
@@ -133,14 +152,17 @@ def tokens (s : String) : List String :=
 
 /-- `(c hh s e)` carries a hex byte, which `toNat?` would reject or misread: rewrite
     the token stream so that the byte becomes a decimal number first. -/
-def fixCh : List String → List String
-  | "(" :: "c" :: h :: rest =>
+def fixChAux : List String → List String → List String
+  | "(" :: "c" :: h :: rest, acc =>
     let v := match h.toList with
       | [a, b] => (byteOf a b).map UInt8.toNat
       | _ => none
-    "(" :: "c" :: (match v with | some n => toString n | none => "x") :: fixCh rest
-  | w :: rest => w :: fixCh rest
-  | [] => []
+    fixChAux rest ((match v with | some n => toString n | none => "x") :: "c" :: "(" :: acc)
+  | w :: rest, acc => fixChAux rest (w :: acc)
+  | [], acc => acc.reverse
+
+/-- (tail recursive: the output of a long run has several 100000 tokens) -/
+def fixCh (l : List String) : List String := fixChAux l []
 
 /-- parse a sequence of trees / numbers up to the closing parenthesis of the enclosing node;
     returns the children, the trailing numbers and the rest -/
@@ -434,8 +456,57 @@ def genOverlap (seed n : Nat) (thorough : Bool) (emit : String → IO Unit) : IO
       steps := (s, if z == 0 then i else 0) :: steps
     emitSteps emit (if j % 4 == 3 then "rx" else "rr2") e steps
 
+/-! ### long runs: a Star whose operand matches hundreds / thousands of times in a row -/
+
+/-- consuming operand, and the bytes of a run of `n` elements of it (as descriptor segments) -/
+def lrOperands : List (E × (Nat → List String)) :=
+  [ (ca, fun n => [s!"{n}*61"]),                                         -- a
+    (.chr .any, fun n => [s!"{n}*61"]),                                  -- unguarded byte
+    (.seq ca cb, fun n => [s!"{n}*6162"]),                               -- ab
+    (.alt ca cb, fun n => [s!"{n / 2}*6162"] ++ (if n % 2 == 1 then ["61"] else [])),  -- a|b, both sides
+    (.seq (.star ca) cb, fun n => [s!"{n}*616162"]) ]                    -- a* b   (nested star)
+
+/-- contexts around the long-running `x*` (`y` = c): alone, `x* y`, `(x* !x)|y`, `(x* y)*`, `!(x* y)` -/
+def lrContexts : List (E → E) :=
+  [ fun x => .star x,
+    fun x => .seq (.star x) cc,
+    fun x => .alt (.seq (.star x) (.not x)) cc,
+    fun x => .star (.seq (.star x) cc),
+    fun x => .not (.seq (.star x) cc) ]
+
+def lrLens : List Nat := [100, 127, 128, 129, 130, 255, 256, 257]
+def lrLensBig : List Nat := [1000, 4095, 4096, 4097]
+
+/-- run of n elements, then nothing / the terminator c / the byte d that nothing matches;
+    at cursor 0, or at cursor 3 behind the prefix `dca` -/
+def emitLong (emit : String → IO Unit) (tag : String) (e : E) (run : List String) (tail : String)
+    (pre : Bool) : IO Unit :=
+  let segs := (if pre then ["646361"] else []) ++ run ++ (if tail == "" then [] else [tail])
+  emit s!"{tag} {showE e} {"+".intercalate segs} {if pre then 3 else 0}"
+
+def genLong (thorough : Bool) (emit : String → IO Unit) : IO Unit := do
+  let lens := if thorough then lrLens ++ lrLensBig else lrLens
+  for (x, runOf) in lrOperands do
+    for ctx in lrContexts do
+      for n in lens do
+        for tail in ["", "63", "64"] do
+          emitLong emit "lr" (ctx x) (runOf n) tail false
+        emitLong emit "lp" (ctx x) (runOf n) "63" true
+  if !thorough then
+    -- quick tier: the big lengths only for a and ab, alone and before y
+    for (x, runOf) in [lrOperands[0]!, lrOperands[2]!] do
+      for ctx in lrContexts.take 2 do
+        for n in lrLensBig do emitLong emit "lb" (ctx x) (runOf n) "63" false
+  else
+    -- the 64 Ki boundary (the line-by-line model is quadratic in the run length: `v ++ [o]` and
+    -- `s.drop i` per round, about 40 s per case here - three cases only)
+    emitLong emit "lh" (.star ca) ["65536*61"] "63" false
+    emitLong emit "lh" (.seq (.star ca) cc) ["65535*61"] "63" false
+    emitLong emit "lh" (.seq (.star ca) cc) ["65537*61"] "63" false
+
 def gen (seed n : Nat) (tier : String) (emit : String → IO Unit) : IO Unit := do
   let thorough := tier == "thorough"
+  genLong thorough emit
   genOverlap seed n thorough emit
   -- (1) exhaustive: every expression of depth ≤ d over the three guarded byte parsers
   --     × every string of length ≤ L over {a,b,c}
